@@ -84,6 +84,18 @@ class pmbl:     # pylint: disable=invalid-name
         return (not isinstance(v, Expression)) and v == 0
 
 
+class IntLiteral(pmbl.Leaf):
+    def __eq__(self, o):            # IntLiteral.__eq__ (literals.py): equal to the python number of its value
+        return self.value == o if isinstance(o, (int, float)) else self is o
+
+    def __hash__(self):
+        return hash(self.value)
+
+
+class sym:      # pylint: disable=invalid-name
+    IntLiteral = IntLiteral
+
+
 class Sum(pmbl.Sum):
     pass
 
@@ -133,14 +145,19 @@ import types as _types  # noqa: E402
 for _n in ('loki', 'loki.expression', 'loki.expression.operations'):      # map_sum imports ParenthesisedMul lazily
     _sys.modules.setdefault(_n, _types.ModuleType(_n))
 _sys.modules['loki.expression.operations'].ParenthesisedMul = ParenthesisedMul
-LEVEL = {'Leaf': ATOM, 'Sum': PREC_SUM, 'Product': PREC_PRODUCT, 'NegProduct': PREC_PRODUCT, 'Quotient': PREC_PRODUCT,
+LEVEL = {'Leaf': ATOM, 'IntLiteral2': ATOM, 'Sum': PREC_SUM, 'Product': PREC_PRODUCT, 'NegProduct': PREC_PRODUCT, 'Quotient': PREC_PRODUCT,
          'Power': PREC_POWER, 'FloorDiv': PREC_PRODUCT, 'ParenthesisedAdd': ATOM, 'ParenthesisedMul': ATOM,
          'ParenthesisedDiv': ATOM, 'ParenthesisedPow': ATOM}
-CLS = {'Leaf': pmbl.Leaf, 'Sum': Sum, 'Product': Product, 'NegProduct': Product, 'Quotient': Quotient, 'Power': Power,
+CLS = {'Leaf': pmbl.Leaf, 'IntLiteral2': IntLiteral, 'Sum': Sum, 'Product': Product, 'NegProduct': Product, 'Quotient': Quotient, 'Power': Power,
        'FloorDiv': pmbl.FloorDiv, 'ParenthesisedAdd': ParenthesisedAdd, 'ParenthesisedMul': ParenthesisedMul,
        'ParenthesisedDiv': ParenthesisedDiv, 'ParenthesisedPow': ParenthesisedPow}
-CHILD_KINDS = ['Leaf', 'Sum', 'Product', 'NegProduct', 'Quotient', 'Power', 'ParenthesisedAdd', 'ParenthesisedMul',
+CHILD_KINDS = ['Leaf', 'IntLiteral2', 'Sum', 'Product', 'NegProduct', 'Quotient', 'Power', 'ParenthesisedAdd', 'ParenthesisedMul',
                'ParenthesisedDiv']
+# the same classes with a text whose first and last characters are brackets that do NOT match each other: (x)*(y) ...
+BRACKETED = {'Product~': ('Product', '*'), 'Quotient~': ('Quotient', ' / '), 'Power~': ('Power', '**')}
+for _k, (_base, _op) in BRACKETED.items():
+    LEVEL[_k] = LEVEL[_base]
+    CLS[_k] = CLS[_base]
 
 # ---- denotations ---------------------------------------------------------------------------------------------------
 MUL = z3.Function('mul', z3.IntSort(), z3.IntSort(), z3.IntSort())
@@ -182,6 +199,16 @@ def make_child(kind, tag):
     o.kind, o.tag = kind, tag
     o.den = c.fresh(z3.IntSort(), 'val_' + tag)
     o.pure = c.fresh(z3.BoolSort(), 'pure_product_' + tag)      # a Product's text has no '/' at its top level
+    if kind in BRACKETED:
+        o.kind = BRACKETED[kind][0]
+        o.bracketed_op = BRACKETED[kind][1]
+        o.parts = (make_child('Leaf', tag + '_p'), make_child('Leaf', tag + '_q'))
+        f = {'*': MUL, ' / ': TDIV, '**': POW}[o.bracketed_op]
+        o.den = f(o.parts[0].den, o.parts[1].den)
+        o.pure = z3.BoolVal(o.bracketed_op == '*')
+        return o
+    if kind == 'IntLiteral2':
+        o.value, o.kind_attr, o.den = 2, None, z3.IntVal(2)
     if kind == 'NegProduct':
         inner = make_child('Leaf', tag + '_x')
         o.children = (-1, inner)
@@ -207,6 +234,11 @@ class MapperSelf:
                     z3.IntVal(-expr), z3.IntVal(L_ATOM), 'int')
             raise OutOfSubset('rec(%r)' % (expr,))
         lvl = LEVEL[expr.kind]
+        if getattr(expr, 'bracketed_op', None):
+            # the child's own map_* method, per its contract, returned `(x) op (y)`, parenthesised as a whole iff needed
+            a, b = (REG[0].new(q.den, z3.IntVal(L_ATOM), 'Leaf:' + q.tag) for q in expr.parts)
+            inner = '(%s)%s(%s)' % (a, expr.bracketed_op, b)
+            return '(%s)' % inner if truth(mk_bool(as_int_term(prec) > lvl)) else inner
         p = as_int_term(prec)
         own = glevel(lvl, expr.pure if lvl == PREC_PRODUCT and expr.kind in ('Product', 'NegProduct') else (
             z3.BoolVal(False) if expr.kind in ('Quotient', 'FloorDiv') else None))
@@ -262,7 +294,7 @@ MULT_PRIMS = {'LokiStringifyMapper': _class_attr_tuple(MAP, 'LokiStringifyMapper
               'FCodeMapper': _class_attr_tuple(FGEN, 'FCodeMapper', 'multiplicative_primitives') or _DEFAULT_MULT,
               'CCodeMapper': _class_attr_tuple(CGEN, 'CCodeMapper', 'multiplicative_primitives') or _DEFAULT_MULT}
 G = dict(_PREC)
-G.update({'pmbl': pmbl, 'ParenthesisedMul': ParenthesisedMul})
+G.update({'pmbl': pmbl, 'ParenthesisedMul': ParenthesisedMul, 'sym': sym, 'IntLiteral': IntLiteral})
 H = {'format': inline(STRF, 'StringifyMapper.format', G), 'join': inline(STRF, 'StringifyMapper.join', G),
      'join_rec': inline(STRF, 'StringifyMapper.join_rec', G), 'parenthesize': inline(STRF, 'StringifyMapper.parenthesize', G),
      'parenthesize_if_needed': inline(STRF, 'StringifyMapper.parenthesize_if_needed', G),
@@ -309,7 +341,7 @@ M = _Maps()
 
 
 # ---- the grammar: precedence-climbing parser over markers, operators and parentheses ---------------------------------
-TOKEN = re.compile(r'\s*(⟦\d+⟧|\*\*|[-+*/()])')
+TOKEN = re.compile(r'\s*(⟦\d+⟧|\*\*|[-+*/(),]|[A-Za-z_]\w*)')
 
 
 class Val:
@@ -362,6 +394,22 @@ class Parser:
             self.i += 1
             den, top, what = self.reg.ops[t]
             return Val(den, top, raw=what)
+        if t is not None and re.match(r'[A-Za-z_]\w*$', t):
+            # a function reference f(args): an atom; pow(x, y) denotes the power (C back end)
+            self.i += 1
+            if self.peek() != '(':
+                raise OutOfSubset('identifier %r in printed text' % t)
+            self.i += 1
+            args = [self.expr(0)]
+            while self.peek() == ',':
+                self.i += 1
+                args.append(self.expr(0))
+            if self.peek() != ')':
+                raise OutOfSubset('unbalanced call')
+            self.i += 1
+            if t == 'pow' and len(args) == 2:
+                return Val(POW(args[0].den, args[1].den), z3.IntVal(L_ATOM))
+            raise OutOfSubset('call of %r in printed text' % t)
         raise OutOfSubset('unexpected token %r' % t)
 
     def expr(self, min_prec):
@@ -464,7 +512,10 @@ def spec_map(flavour, method, kinds):
 
     def decode(env, m, r):
         return {'function': method, 'mapper': flavour, 'children': list(kinds)}
-    sp = FunctionSpec(PROP, file, qual, {}, setup, post, theory=T, lemmas=[], decode=decode, ext=False,
+    _a, _b, _c = z3.Ints('mul!a mul!b mul!c')
+    assoc = z3.ForAll([_a, _b, _c], MUL(MUL(_a, _b), _c) == MUL(_a, MUL(_b, _c)), patterns=[MUL(MUL(_a, _b), _c)])
+    square = z3.ForAll([_a], POW(_a, 2) == MUL(_a, _a), patterns=[POW(_a, 2)])      # x**2 = x*x (admitted law)
+    sp = FunctionSpec(PROP, file, qual, {}, setup, post, theory=T, lemmas=[assoc, square], decode=decode, ext=False,
                       variant='%s: %s' % (flavour, ' , '.join(kinds)),
                       budgets=(2_000_000, 2_000_000, 0, 4_000_000, 3_000_000, 8000))
     sp.fn_override = run
@@ -482,14 +533,19 @@ def specs(tier='quick'):
     out = []
     flavours = [f for f in ('LokiStringifyMapper', 'FCodeMapper', 'CCodeMapper')]
     seen = set()
+    all_methods = ('map_sum', 'map_product', 'map_quotient', 'map_power', 'map_parenthesised_add',
+                   'map_parenthesised_mul', 'map_parenthesised_div', 'map_parenthesised_pow')
     for fl in flavours:
         key = tuple(sorted(c.__name__ for c in MULT_PRIMS[fl]))
-        if key in seen:
-            continue            # same class attributes => same behaviour of the inherited methods
-        seen.add(key)
-        for method in ('map_sum', 'map_product', 'map_quotient', 'map_power', 'map_parenthesised_add',
-                       'map_parenthesised_mul', 'map_parenthesised_div', 'map_parenthesised_pow'):
-            for a, b in itertools.product(CHILD_KINDS, CHILD_KINDS):
+        own = [m for m in all_methods if resolve(fl, m)[1].startswith(fl + '.')]     # methods the back end overrides itself
+        methods = all_methods if key not in seen else tuple(own) + tuple(
+            m for m in all_methods if m not in own and own and m in ('map_quotient', 'map_product', 'map_parenthesised_pow'))
+        seen.add(key)           # same class attributes => same behaviour of the methods that are inherited unchanged
+        for method in methods:
+            kinds = CHILD_KINDS + (list(BRACKETED) if method in ('map_quotient', 'map_product', 'map_power') else [])
+            for a, b in itertools.product(kinds, kinds):
+                if (a in BRACKETED or b in BRACKETED) and not ({a, b} <= set(BRACKETED) | {'Leaf', 'Sum'}):
+                    continue
                 if 'parenthesised' in method and (a, b) not in (('Leaf', 'Leaf'), ('Sum', 'Quotient'), ('Quotient', 'Sum'),
                                                                ('Product', 'Power'), ('NegProduct', 'Product')):
                     continue
